@@ -227,6 +227,17 @@ def run(ctx):
                 ctx.fail('protected-file-touched:delete_files', key, expected='directory byte-identical', observed=o)
         if ob[-1]['final'] != 'ok':
             ctx.fail('array-damaged', dict(kind=case['kind'], scenario='bare name'), observed=ob[-1])
+    # protected names that do not exist yet
+    Pn = [dict(kind='Array', names=['metadata.json']),
+          dict(kind='RaggedArray', names=['metadata.json', 'values/notes.txt', 'indices/metadata.json', 'values/sub/x.txt'])]
+    for case, ob in zip(Pn, ctx.run_impl(Pn, 'absent_protected')):
+        if isinstance(ob, dict):
+            ctx.fail('harness-error', dict(kind=case['kind'], scenario='absent protected name'), observed=ob); continue
+        for o in ob:
+            key = dict(kind=case['kind'], m=o['how'], name=o['name'], scenario='protected name that does not exist yet')
+            ctx.seen(key); ctx.count('absent-protected'); ctx.evaluations += 1
+            if o['res'][0] == 'ok' or not o['unchanged']:
+                ctx.fail('protected-file-touched:' + o['how'], key, expected='OSError, directory byte-identical', observed=o)
     # build terms: need the tree before each op = initial tree (protected ops change nothing)
     for case, ob in keep:
         base = '/B/arr'
